@@ -211,6 +211,39 @@ impl<'a> G<'a> {
             ss.push(s);
             hs.push(Some(live[self.rng.below(live.len() as u64) as usize]));
         }
+        if n >= 2 && !unreduced_mode && self.rng.chance(1, 6) {
+            // related terms: pairs (s, P), (-s, P) that cancel - part of the sum, or all of it (result = identity)
+            bump(&mut self.c, "probe:msm_cancelling_pairs");
+            let all = self.rng.chance(1, 3);
+            let pairs = if all { n / 2 } else { 1 + self.rng.below((n / 2) as u64) as usize };
+            for j in 0..pairs {
+                let (i0, i1) = (2 * j, 2 * j + 1);
+                let sv = refmodel::Sc::from_bytes_mod_order(&ss[i0].b.a32());
+                ss[i0] = Sc { b: B(sv.to_bytes().to_vec()), k: 1 };
+                ss[i1] = Sc { b: B(sv.neg().to_bytes().to_vec()), k: 1 };
+                hs[i1] = hs[i0];
+            }
+            if all && n % 2 == 1 {
+                ss[n - 1] = Sc { b: B(vec![0u8; 32]), k: 1 };
+            }
+        }
+        if g == 0 && n >= 8 && self.rng.chance(1, 6) {
+            // a small-order point and the identity somewhere deep inside a long input
+            bump(&mut self.c, "probe:msm_special_points_inside");
+            let (t_h, id_h) = (self.dst(), self.dst());
+            if t_h != id_h {
+                let t = ed::torsion()[1 + self.rng.below(7) as usize];
+                { let st__ = Step::Dec { g: 0, dst: t_h, b: B(t.encode().to_vec()), via: 0 }; self.emit(st__); }
+                { let st__ = Step::Const { g: 0, dst: id_h, which: 0 }; self.emit(st__); }
+                let (p1, p2) = (self.rng.below(n as u64) as usize, self.rng.below(n as u64) as usize);
+                if hs[p1].is_some() {
+                    hs[p1] = Some(t_h);
+                }
+                if hs[p2].is_some() && p2 != p1 {
+                    hs[p2] = Some(id_h);
+                }
+            }
+        }
         if entry == 2 && n > 0 && self.rng.chance(if n >= 189 { 6 } else { 3 }, 10) {
             let pos = match self.rng.below(4) {
                 0 => {
@@ -265,7 +298,26 @@ impl<'a> G<'a> {
         }
         let (dst, d) = (self.dst(), self.disp());
         let it = self.rng.below(3) as u8;
-        { let st__ = Step::Pre { g, dst, entry, st, ss, ds, dh, d, it }; self.emit(st__); }
+        let slot = self.rng.below(4) as u8;
+        let nst_kept = st.len();
+        { let st__ = Step::Pre { g, dst, entry, st, ss, ds, dh, d, it, slot }; self.emit(st__); }
+        // the same precomputation object is used again with other scalars (n-th use)
+        let uses = self.rng.below(3);
+        for _ in 0..uses {
+            let live = self.live(g);
+            if live.is_empty() {
+                break;
+            }
+            let nss = self.rng.below(nst_kept as u64 + 1) as usize;
+            let ss: Vec<Sc> = (0..nss).map(|_| self.scalar_canon()).collect();
+            let entry = self.rng.below(3) as u8;
+            let nd = if entry == 0 { 0 } else { self.rng.below(4) as usize };
+            let ds: Vec<Sc> = (0..nd).map(|_| self.scalar_canon()).collect();
+            let dh: Vec<Option<H>> = (0..nd).map(|_| Some(live[self.rng.below(live.len() as u64) as usize])).collect();
+            let (dst, d) = (self.dst(), self.disp());
+            bump(&mut self.c, "probe:precomputation_object_reused");
+            { let st__ = Step::PUse { g, dst, slot, entry, ss, ds, dh, d }; self.emit(st__); }
+        }
     }
 
     fn scalar_mul_entry(&mut self, g: u8) {
@@ -287,7 +339,15 @@ impl<'a> G<'a> {
                 let s = self.scalar(true);
                 let radix = if g == 0 { [16u16, 32, 64, 128, 256][self.rng.below(5) as usize] } else { 16 };
                 bump(&mut self.c, &format!("probe:table_radix_{}", radix));
-                { let st__ = Step::Table { g, dst, a, radix, s }; self.emit(st__); }
+                let slot = self.rng.below(4) as u8;
+                { let st__ = Step::Table { g, dst, a, radix, s, slot }; self.emit(st__); }
+                // the same table object is used again, possibly much later
+                let uses = self.rng.below(3);
+                for _ in 0..uses {
+                    let (s2, d2) = (self.scalar(true), self.dst());
+                    bump(&mut self.c, "probe:table_object_reused");
+                    { let st__ = Step::TUse { g, dst: d2, slot, s: s2 }; self.emit(st__); }
+                }
             }
             5 => {
                 let (mut sa, mut sb) = (self.scalar(true), self.scalar(true));
